@@ -439,7 +439,11 @@ class DictNode(BaseNode):
         self.rcurl = rcurl
 
 class EmptyNode(BaseNode):
-    pass
+    # BaseNode is a dataclass with eq, which makes subclasses unhashable by
+    # default; the other node types opt back in with unsafe_hash. An empty
+    # node can end up inside a dictionary key ('{-: 1}').
+    def __hash__(self) -> int:
+        return hash((self.lineno, self.colno))
 
 @dataclass(unsafe_hash=True)
 class BinaryOperatorNode(BaseNode):
